@@ -354,6 +354,8 @@ def rule_wiring(chk):
     c03.rule_regroup(chk)
     c03.rule_dispatch(chk)
     c03.rule_bounds(chk)
+    # groups, sub-groups, their conditions and iteration loops nest in the generated compute() as the group tree says (rule shared with C03)
+    c03.rule_top(chk, tpl)
     # the wrapper that `src.X` / `dst.X` resolve through must (re)bind every property AND every constant whenever an array is set
     def pick(test):
         return U(test) == 'len(group.data) > 0'
